@@ -234,7 +234,7 @@ func GenAction(t *rapid.T, bias GenBias) Action {
 		case k == 10:
 			a.Kind = "deploy"
 			a.A = rapid.IntRange(0, 2).Draw(t, "variant")
-			a.S = rapid.SampledFrom([]string{"", "a", "b"}).Draw(t, "suffix")
+			a.S = rapid.SampledFrom([]string{"", "a", "b", "big", "big"}).Draw(t, "suffix")
 			a.B = rapid.SampledFrom([]int{0, 0, 1, 1, 2, 3}).Draw(t, "perm_profile")
 		case k == 11:
 			a.Kind, a.S = "invoke", "update"
